@@ -395,3 +395,134 @@ def Row.render : Row → Option (List Char)
 
 end Line
 
+/-!
+## Decorations (`src/handlers/draw.rs`)
+
+Each `write_*` function as the ordered list of what it writes: painted pieces (`Style::paint`, via
+`write!`) and newlines (`writeln!` / a literal `\n` in a format string). The order of output
+statements per function is extracted (`Generated.DrawShapes.drawShapes`) and compared with
+`Draw.modelledShapes` in `Proofs/TermDraw.lean`.
+-/
+namespace Draw
+
+/-- What a draw function writes: `some piece` or a newline (`none`). -/
+abbrev Out := List (Option (List Char))
+
+/-- The box-drawing characters chosen by `decoration_style.is_bold` (heavy / light). -/
+structure BoxChars where
+  horizontal : Char
+  downLeft : Char
+  vertical : Char
+  upLeft : Char
+  upHorizontal : Char
+
+structure Args where
+  text : List Char
+  rawText : List Char
+  addendum : List Char
+  /-- `ansi::measure_text_width(text)` (from the implementation) -/
+  textWidth : Nat
+  /-- `Width::Fixed(n)` / `Width::Variable` -/
+  width : Option Nat
+  textStyle : Sgr.Style
+  /-- `text_style.is_raw` -/
+  textRaw : Bool
+  deco : Sgr.Style
+  ch : BoxChars
+
+/-- `paint_text`. -/
+def paintText (a : Args) : List Char :=
+  if a.addendum = [] then Sgr.paint a.textStyle a.text
+  else Sgr.paint a.textStyle (a.text ++ " (".toList ++ a.addendum ++ ")".toList)
+
+/-- `if text_style.is_raw { raw_text } else { paint_text(…) }`. -/
+def textPiece (a : Args) : List Char := if a.textRaw then a.rawText else paintText a
+
+def decoPiece (a : Args) (t : List Char) : Option (List Char) := some (Sgr.paint a.deco t)
+
+/-- `write_no_decoration`. -/
+def noDecoration (a : Args) : Out := [some (textPiece a), none]
+
+/-- `write_horizontal_line` (no newline). -/
+def horizontalLine (a : Args) (n : Nat) : Out := [decoPiece a (List.replicate n a.ch.horizontal)]
+
+/-- `write_boxed_partial`: top edge, the text between the left margin and `│`, the bottom edge
+(not terminated). -/
+def boxedPartial (a : Args) : Out :=
+  let edge := List.replicate a.textWidth a.ch.horizontal
+  [decoPiece a edge, decoPiece a [a.ch.downLeft], none,
+   some (textPiece a), decoPiece a [a.ch.vertical], none, decoPiece a edge]
+
+/-- `write_boxed`. -/
+def boxed (a : Args) : Out := boxedPartial a ++ [decoPiece a [a.ch.upLeft], none]
+
+/-- `write_boxed_with_horizontal_whisker`. -/
+def boxedWithWhisker (a : Args) : Out := boxedPartial a ++ [decoPiece a [a.ch.upHorizontal]]
+
+/-- `write_boxed_with_underline`: the whisker is drawn by `write_horizontal_line`, then `writeln!()`. -/
+def boxedWithUnderline (a : Args) : Out :=
+  let lw := match a.width with
+    | some n => n
+    | none => a.textWidth
+  boxedWithWhisker a ++ horizontalLine a (if lw > a.textWidth then lw - a.textWidth - 1 else 0) ++ [none]
+
+inductive UnderOver where
+  | under | over | underover
+  deriving DecidableEq, Repr
+
+/-- `_write_under_or_over_lined`. -/
+def underOver (k : UnderOver) (a : Args) : Out :=
+  let lw := match a.width with
+    | some n => max n a.textWidth
+    | none => a.textWidth
+  let line : Out := horizontalLine a lw ++ [none]
+  (if k = .under then [] else line) ++ [some (textPiece a), none] ++ (if k = .over then [] else line)
+
+/-- `DecorationStyle` variants. -/
+inductive Shape where
+  | noDecoration | box | boxWithUnderline | boxWithOverline | boxWithUnderOverline
+  | underline | overline | underOverline
+  deriving DecidableEq, Repr
+
+/-- `get_draw_function` applied. -/
+def draw : Shape → Args → Out
+  | .noDecoration, a => noDecoration a
+  | .box, a => boxed a
+  | .boxWithUnderline, a => boxedWithUnderline a
+  | .boxWithOverline, a => boxed a
+  | .boxWithUnderOverline, a => boxed a
+  | .underline, a => underOver .under a
+  | .overline, a => underOver .over a
+  | .underOverline, a => underOver .underover a
+
+/-- The output split at the newlines (`cur`: the line being written; the last element is the
+unterminated remainder, empty when the output ends with a newline). -/
+def linesAux (cur : List Char) : Out → List (List Char)
+  | [] => [cur]
+  | none :: rest => cur :: linesAux [] rest
+  | some p :: rest => linesAux (cur ++ p) rest
+
+def lines (o : Out) : List (List Char) := linesAux [] o
+
+/-- The shape of `draw.rs` this model mirrors (see `Generated.DrawShapes.drawShapes`). -/
+def modelledShapes : List (String × List String) :=
+  [("paint_text", ["if addendum.is_empty()"]),
+   ("get_draw_function", []),
+   ("write_no_decoration", ["writeln!(\"{raw_text}\")", "writeln!(\"{}\", paint_text(text_style, text, addendum))", "if text_style.is_raw"]),
+   ("write_boxed", ["call write_boxed_partial", "writeln!(\"{}\", decoration_style.paint(up_left))"]),
+   ("write_boxed_with_underline", ["call write_boxed_with_horizontal_whisker", "call write_horizontal_line", "writeln!()", "if line_width > box_width"]),
+   ("write_underlined", ["call _write_under_or_over_lined"]),
+   ("write_overlined", ["call _write_under_or_over_lined"]),
+   ("write_underoverlined", ["call _write_under_or_over_lined"]),
+   ("_write_under_or_over_lined", ["call write_horizontal_line", "writeln!()", "call write_line", "writeln!(\"{raw_text}\")", "writeln!(\"{}\", paint_text(text_style, text, addendum))", "call write_line", "if text_style.is_raw"]),
+   ("write_horizontal_line", ["write!(\"{}\", decoration_style.paint(horizontal.repeat(width)))"]),
+   ("write_boxed_with_horizontal_whisker", ["call write_boxed_partial", "write!(\"{}\", decoration_style.paint(up_horizontal))"]),
+   ("write_boxed_partial", ["writeln!(\"{}{}\", decoration_style.paint(&horizontal_edge), decoration_style.paint(down_left))", "write!(\"{raw_text}\")", "write!(\"{}\", paint_text(text_style, text, addendum))", "write!(\"{}\\n{}\", decoration_style.paint(vertical), decoration_style.paint(&horizontal_edge))", "if text_style.is_raw"])]
+
+def modelledDrawFunctions : List (String × String) :=
+  [("Box", "write_boxed"), ("BoxWithUnderline", "write_boxed_with_underline"), ("BoxWithOverline", "write_boxed"),
+   ("BoxWithUnderOverline", "write_boxed"), ("Underline", "write_underlined"), ("Overline", "write_overlined"),
+   ("UnderOverline", "write_underoverlined"), ("NoDecoration", "write_no_decoration")]
+
+end Draw
+
